@@ -221,6 +221,25 @@ def gen(ctx):
             C.add("psub_aff", list(inf) + [tn[0], tn[1]], "psub_aff:inf-Q", cost=25)
         C.add("padd_aff", list(rep(p1, "scaled")) + [0, 0], "padd_aff:P+inf(0,0)", cost=25)
         C.add("psub_aff", list(rep(p1, "norm")) + [0, 0], "psub_aff:P-inf(0,0)", cost=25)
+    # representatives whose raw Z has a single non-zero limb (the infinity tests OR the limbs of Z)
+    def sparse(pt, i):
+        return E.jac_rawz(pt, (1 + rnd() % ((1 << 32) - 1 if i == 3 else (1 << 64) - 1)) << (64 * i))
+    pa, pb = pts[1], pts[4]
+    for i in range(4):
+        ti = sparse(pa, i)
+        C.add("pdbl", list(ti), "pdbl:sparseZ-limb%d" % i, cost=20)
+        C.add("pinf", list(ti), "pinf:sparseZ-limb%d" % i, cost=5)
+        C.add("pxy", list(ti), "pxy:sparseZ-limb%d" % i, cost=20)
+        C.add("ponc", list(ti), "ponc:sparseZ-limb%d" % i, cost=10)
+        tn = rep(pb, "norm")
+        C.add("padd_aff", list(ti) + [tn[0], tn[1]], "padd_aff:sparseZ-limb%d" % i, cost=25)
+        C.add("psub_aff", list(ti) + [tn[0], tn[1]], "psub_aff:sparseZ-limb%d" % i, cost=25)
+        C.add("pmul", [rnd()] + list(ti), "pmul:sparseZ-limb%d" % i, cost=2000)
+        for j in range(4):
+            tj = sparse(pb, j)
+            C.add("padd", list(ti) + list(tj), "padd:sparseZ-limb%d-limb%d" % (i, j), cost=25)
+            C.add("psub", list(ti) + list(tj), "psub:sparseZ-limb%d-limb%d" % (i, j), cost=25)
+            C.add("pequ", list(ti) + list(tj), "pequ:sparseZ-limb%d-limb%d" % (i, j), cost=15)
     for inf in INF:
         C.add("pdbl", list(inf), "pdbl:inf", cost=20)
         C.add("pneg", list(inf), "pneg:inf", cost=10)
@@ -412,16 +431,25 @@ def run(ctx):
     t0 = time.time()
     model = eval_model(cases)
     ctx.notes.append("model (coqc vm_compute): %.1fs for %d cases" % (time.time() - t0, len(cases)))
-    variants = ["asan"] if ctx.tier == "quick" else ["asan", "amd64elf"]
-    for v in variants:
+    # the assembly back-end re-uses the model results (the expensive side); in the quick tier it is
+    # run on the routines it replaces (field ops mod p, point ops, fixed-base and windowed
+    # multiplication), in the thorough tier on everything
+    ASM_OPS = ("modp_add", "modp_sub", "modp_dbl", "modp_tri", "modp_neg", "modp_haf", "modp_mont_mul", "modp_mont_sqr",
+               "modp_to_mont", "modp_from_mont", "pdbl", "padd", "psub", "pneg", "padd_aff", "psub_aff", "pequ", "ponc",
+               "pinf", "pxy", "precomp", "pmulgen", "pmul")
+    for v in ["asan", "amd64elf"]:
         exe, log = core.build_harness("C13", v)
         if exe is None:
             core.harness_build_failed(ctx, log)
             continue
+        sel = list(range(len(cases)))
+        if v != "asan" and ctx.tier == "quick":
+            sel = [i for i in sel if cases[i][0].split(" ", 1)[0] in ASM_OPS]
+        sub = [cases[i] for i in sel]
         t1 = time.time()
-        impl, err = core.run_lines(exe, [c[0] for c in cases], shards=SHARDS)
-        ctx.notes.append("variant %s: impl %.1fs" % (v, time.time() - t1))
-        compare(ctx, cases, impl, model, v)
+        impl, err = core.run_lines(exe, [c[0] for c in sub], shards=SHARDS)
+        ctx.notes.append("variant %s: impl %.1fs, %d cases" % (v, time.time() - t1, len(sub)))
+        compare(ctx, sub, impl, [model[i] for i in sel], v)
     return finish(ctx)
 
 
